@@ -173,7 +173,7 @@ CHECKS["C04"] = dict(
          "list exposes after the call, Coq expands them, compares the expansion with the solver transcript (fixed-size lists) and "
          "judges values, frame and outcome by enumeration; len() / size / iteration / indexing / element models are compared after "
          "every call and every append / clear / assignment against Python-level bookkeeping."
-         " Added later: constant-index elements outside foreach, product, unique_vec, unique argument orders over several lists, free-standing calls that refer to an element they do not pass, clear-after-call histories; a failed call on a random-size list is examined for every size 0..5 (satisfiable for some size => violation) and must leave a list whose size was never solved for unchanged; lists of objects: identity of the exposed objects after clear / append.",
+         " Theorems added later: the product is the 64-bit product of exactly the exposed elements (0 for none) at any context width; unique_vec holds iff the vectors are pairwise different as tuples. Generators added later: constant-index elements outside foreach, product, unique_vec, unique argument orders over several lists, free-standing calls that refer to an element they do not pass, clear-after-call histories; a failed call on a random-size list is examined for every size 0..5 (satisfiable for some size => violation) and must leave a list whose size was never solved for unchanged; lists of objects: identity of the exposed objects after clear / append.",
     note=SOLVER_NOTE + "For random-size lists there is no term-level tie (element models are created during the call); their "
          "values, sizes and outcomes are judged by the oracle. The product of a random-size list is not generated (the code's "
          "'product of no elements' depends on when the expression was built).",
